@@ -9,14 +9,82 @@ NAME_POOLS = [
     ["a$b", "$in", "x{0}", "100%s", "q'r", "semi;colon", "#1", "u$$", "${p}", "back\\slash"],
     # names that look like the placeholders of the project's own message templates
     ["$width", "$new_elem", "$start", "$line", "$port", "$$", "$capability", "$unit", "$elem", "$lock_type"],
+    # Latin-1 names: letters with case partners above U+00BF, letters without one (sharp s, micro sign,
+    # y-diaeresis), non-letters, and the two Latin-1 white-space characters (NEL, no-break space)
+    ["\u00c9cole", "\u00f1and\u00fa", "Stra\u00dfe", "\u00b5op", "\u00dcnit", "\u00c6sir", "\u00feorn", "\u00ff",
+     "a\u00d7b", "x\u00f7y\u00a0z"],
 ]
+
+
+def up1(c):
+    """upper-case form of one character when it is again one Latin-1 character naming the same letter
+    (str.upper sends sharp s to 'SS' and the micro sign / y-diaeresis out of Latin-1: those stay as they are)"""
+    u = c.upper()
+    return u if len(u) == 1 and ord(u) < 256 and u.lower() == c.lower() else c
 
 
 def recase(rng, s, p=0.5):
     """random letter-case variant of s"""
     if rng.random() >= p:
         return s
-    return "".join(c.upper() if rng.random() < 0.5 else c.lower() for c in s)
+    return "".join(up1(c) if rng.random() < 0.5 else c.lower() for c in s)
+
+
+# letter pairs of Latin-1 used to re-letter a whole case consistently (commutes with str.lower/str.upper)
+_L1_TARGETS = [chr(c) for c in range(0xC0, 0xDF) if c != 0xD7]
+_L1_KEYS = ("desc", "desc2", "isa", "isa2", "spec", "caps", "lines", "lines2", "instrs", "prog", "parts")
+
+
+def latin1ify(rng, case):
+    """the same case with some ASCII letters replaced, consistently and case-pair by case-pair, by Latin-1
+    letters (A/a -> e.g. U+00C9/U+00E9).  Only the text fields of a case are touched."""
+    letters = rng.sample("ABCDEFGHIJKLMNOPQRSTUVWXYZ", rng.randint(1, 6))
+    targets = rng.sample(_L1_TARGETS, len(letters))
+    tbl = {}
+    for a, t in zip(letters, targets):
+        tbl[ord(a)] = t
+        tbl[ord(a.lower())] = t.lower()
+
+    def tr(x):
+        if isinstance(x, str):
+            return x.translate(tbl)
+        if isinstance(x, list):
+            return [tr(y) for y in x]
+        if isinstance(x, tuple):
+            return tuple(tr(y) for y in x)
+        if isinstance(x, dict):
+            return {k: tr(v) for k, v in x.items()}
+        return x
+    return {k: (tr(v) if k in _L1_KEYS else v) for k, v in case.items()}
+
+
+def near_miss_names(rng, d):
+    """renames two unit names or two capabilities of a description to texts that str.lower keeps apart but a
+    broader notion of caseless matching (casefold, NFKC, trimming) would merge: sharp s / "ss", with and
+    without a trailing no-break space"""
+    pairs = [("Ma\u00df", "MASS"), ("stra\u00dfe", "Strasse"), ("Gro\u00df", "gross"), ("io\u00a0", "IO")]
+    new = rng.choice(pairs)
+    if rng.random() < 0.5:
+        olds = [u["name"].lower() for u in d["units"]]
+    else:
+        olds = sorted({c.lower() for u in d["units"] for c in u["capabilities"]})
+    if len(olds) < 2:
+        return d
+    olds = rng.sample(olds, 2)
+    ren = dict(zip(olds, new))
+
+    def r(s):
+        return recase(rng, ren[s.lower()], 0.3) if isinstance(s, str) and s.lower() in ren else s
+    for u in d["units"]:
+        u["name"] = r(u["name"])
+        u["capabilities"] = [r(c) for c in u["capabilities"]]
+        if "memoryAccess" in u:
+            u["memoryAccess"] = [r(c) for c in u["memoryAccess"]]
+    d["dataPath"] = [[r(x) for x in e] for e in d["dataPath"]]
+    return d
+
+
+LATIN1_COMPONENTS = {"loader", "isa", "parse", "abilities", "mkproc", "pipeline", "recase", "hwload"}
 
 
 def rand_dag(rng, n, pedge=0.35, shape=None):
@@ -312,7 +380,7 @@ def inject_defect(rng, d, kind=None):
 
 
 # ----------------------------------------------------------------------------- program text / ISA tables
-WS = [" ", "\t", "  ", " \t ", "\x0b", "\x0c", "\x1c", "\x1f"]
+WS = [" ", "\t", "  ", " \t ", "\x0b", "\x0c", "\x1c", "\x1f", "\x85", "\xa0"]
 IDCH = "ABCDEFGHIJKLMNOPQRSTUVWXYZabcdefghijklmnopqrstuvwxyz0123456789_"
 
 
